@@ -28,7 +28,7 @@ def pick_len(rng, maxlen):
 
 def plan(tier):
     return {"shards": 8 if tier == "quick" else 16, "budget_s": 25 if tier == "quick" else 300,
-            "required_counters": ["super_cases", "linear_cases", "reduction_loop_visits"]}
+            "required_counters": ["super_cases", "linear_cases", "sumagg_cases", "reduction_loop_visits"]}
 
 
 def rand_tree(rng, depth, L):
@@ -215,8 +215,65 @@ def check_linear(ctx, case):
                       {"ratio": w, "got": got.ravel()[:3], "want": ref.ravel()[:3]})
 
 
+AGGS = ["mean", "max", "min", "median", "std", "ptp", "sum", "var"]
+
+
+def gen_sumagg(rng):
+    """sumup together with pixel_agg: 'sumup=True returns the sum over sources' of exactly what sumup=False
+    returns, whatever the (possibly non-linear) pixel aggregator is"""
+    maxlen = int(rng.choice([1, 1, 3]))
+    entries = []
+    for _ in range(int(rng.integers(2, 5))):
+        L = pick_len(rng, maxlen)
+        if rng.random() < 0.4:
+            t = rand_tree(rng, int(rng.integers(0, 2)), L)
+            if not src_leaves(t):
+                t["children"].append(objs.rand_source(rng, path_len=L))
+            entries.append(t)
+        else:
+            entries.append(objs.rand_source(rng, path_len=L))
+    sens = []
+    same = rng.random() < 0.6
+    shp = tuple(int(x) for x in rng.integers(1, 4, size=int(rng.integers(1, 3))))
+    for _ in range(int(rng.integers(1, 4))):
+        if not same:
+            shp = tuple(int(x) for x in rng.integers(1, 4, size=int(rng.integers(1, 3))))
+        pix = (rng.normal(size=shp + (3,)) * 0.6).tolist()
+        sens.append(objs.rand_sensor(rng, path_len=pick_len(rng, maxlen), pixel=pix, far=1.0))
+    return {"type": "sumagg", "entries": entries, "obs": {"sensors": sens}, "agg": str(rng.choice(AGGS)),
+            "field": str(rng.choice(list("BH")))}
+
+
+def check_sumagg(ctx, case):
+    import magpylib as magpy
+
+    F = case["field"]
+    get = getattr(magpy, "get" + F)
+    try:
+        with quiet():
+            srcs = [objs.build(e) for e in case["entries"]]
+            each = np.asarray(get(srcs, build_obs(case["obs"]), sumup=False, pixel_agg=case["agg"], squeeze=False))
+            srcs = [objs.build(e) for e in case["entries"]]
+            tot = np.asarray(get(srcs, build_obs(case["obs"]), sumup=True, pixel_agg=case["agg"], squeeze=False))
+    except Exception as e:
+        ctx.violation({"kind": "exception", "type": type(e).__name__, "agg": True}, case, exc_info(e))
+        return
+    ctx.count("sumagg_cases")
+    ctx.count("sumagg:" + case["agg"])
+    ref = each.sum(axis=0, keepdims=True)
+    ctx.evaluated(case, nontrivial=True, n=int(np.prod(ref.shape[:-1])))
+    if tot.shape != ref.shape:
+        ctx.violation({"kind": "shape", "agg": True}, case, {"got": tot.shape, "want": ref.shape})
+        return
+    fl = sum(tol.floor_abs(e, F) for e in case["entries"])
+    ok, w = tol.close_a(tot, ref, fl + 1e-12 * float(np.max(np.abs(each))), rtol=1e-9)
+    if not ok:
+        ctx.violation({"kind": "sumup!=sum-of-entries", "agg": case["agg"], "field": F}, case,
+                      {"ratio": w, "got": tot.ravel()[:6], "want": ref.ravel()[:6]})
+
+
 def check_case(ctx, case):
-    (check_super if case["type"] == "super" else check_linear)(ctx, case)
+    {"super": check_super, "linear": check_linear, "sumagg": check_sumagg}[case["type"]](ctx, case)
 
 
 def attach_probe(ctx):
@@ -235,7 +292,8 @@ def run_shard(ctx):
     for u in ctx.safety.unattached:
         ctx.count("probe_unattached:" + u)
     while not ctx.expired():
-        case = gen_super(ctx.rng) if ctx.rng.random() < 0.6 else gen_linear(ctx.rng)
+        u = ctx.rng.random()
+        case = gen_super(ctx.rng) if u < 0.5 else (gen_linear(ctx.rng) if u < 0.88 else gen_sumagg(ctx.rng))
         check_case(ctx, case)
 
 
